@@ -346,9 +346,9 @@ def shortest_path_history(ctx, rng):
     """more than 10 distinct layouts overflow dijkstra's LRU; answers must not depend on the query history"""
     fn = reward_fs.factory('getting_closer_shortest_path', object_type=Exit, reward_closer=1.0, reward_further=-1.0)
     questions = []
-    for k in range(9):
+    for k in range(14):
         h, w = rng.randint(3, 6), rng.randint(3, 6)
-        s, _ = gen.rand_state(rng, [Floor, Wall], [Color.NONE], shape=(h, w), p_floor=0.75)
+        s, _ = gen.rand_state(rng, [Floor, Wall], [Color.NONE], shape=(h, w), p_floor=rng.choice([0.5, 0.75]))
         ey, ex = rng.randrange(h), rng.randrange(w)
         s.grid[ey, ex] = Exit()
         free = [(y, x) for y in range(h) for x in range(w) if not s.grid[y, x].blocks_movement]
@@ -362,7 +362,7 @@ def shortest_path_history(ctx, rng):
         walls = [(yy, xx) for yy in range(h) for xx in range(w) if isinstance(s.grid[yy, xx], Wall)]
         frees = [(yy, xx) for yy in range(h) for xx in range(w) if type(s.grid[yy, xx]) is Floor
                  and (yy, xx) not in ((y, x), (y2, x2))]
-        if walls and frees:
+        for _ in range(2 if walls and frees else 0):
             s_b, ns_b = dyndrive.copy_state(s), dyndrive.copy_state(ns)
             (wy, wx), (fy, fx) = rng.choice(walls), rng.choice(frees)
             for st in (s_b, ns_b):
